@@ -1,4 +1,5 @@
 import IceProofs.CloseSysFinal
+import IceTie.Order
 /-!
 # C08 — Close always terminates, unblocks everyone, and is final
 
@@ -267,5 +268,44 @@ example : demoEnd.thr.map (·.last) =
     [some .ok, some .ok, some .ioerr, some .closed, some .closed, none, some .ok, some .ok] := by decide
 example : demoEnd.thr.all (·.finished) = true ∧ demoEnd.streams.all (fun st => st.ndone && !st.running) = true := by decide
 example : mu demoEnd = 0 := by decide
+
+/-! ## Tie to the code (T, order of effects): the onClose function of the agent's task loop and the candidate's `abortIO` / `close`
+are REGENERATED on every run in effect mode -/
+
+/-- the onClose function (runs once, after the last task): cancel gathering and WAIT for the gather goroutine, release the mux
+ufrag, delete (close) all candidates, release `startedCh`, close the receive buffer, close the mDNS connection and LAST set the
+state Closed — the final notified state — whether or not closing the buffer failed -/
+theorem C08_code_onClose (hasGatherDone bufCloseFails : Bool) :
+    IceGen.agent_onClose hasGatherDone bufCloseFails
+      = IceTie.Order.c "gatherCandidateCancel" :: (if hasGatherDone then [IceTie.Order.c "wait gatherCandidateDone"] else [])
+        ++ [IceTie.Order.c "removeUfragFromMux", IceTie.Order.c "deleteAllCandidates", IceTie.Order.c "startedFn",
+            IceTie.Order.c "buf.Close", IceTie.Order.c "closeMulticastConn",
+            IceTie.Order.c1 "updateConnectionState" (IceModel.Val.i 7)] ∧
+    (IceGen.agent_onClose hasGatherDone bufCloseFails).getLast? = some (IceTie.Order.c1 "updateConnectionState" (IceModel.Val.i 7)) ∧
+    IceTie.Order.pos (IceGen.agent_onClose hasGatherDone bufCloseFails) (IceTie.Order.c "deleteAllCandidates")
+      < IceTie.Order.pos (IceGen.agent_onClose hasGatherDone bufCloseFails) (IceTie.Order.c1 "updateConnectionState" (IceModel.Val.i 7)) :=
+  ⟨IceTie.Order.onClose_tie hasGatherDone bufCloseFails, (IceTie.Order.onClose_closed_last hasGatherDone bufCloseFails).1,
+   (IceTie.Order.onClose_closed_last hasGatherDone bufCloseFails).2⟩
+
+/-- `candidateBase.abortIO` and `close`: a never-started candidate returns nil at once; otherwise, once: unblock recvLoop
+(`close(closeCh)`), `SetDeadline(now)`, `abortWrite` for mux handles, `conn.Close` — in this order, keeping the first error; `close`
+then WAITS for recvLoop and unregisters the candidate -/
+theorem C08_code_candidate_close (neverStarted isWriteAborter hasAgent : Bool) :
+    IceGen.candidateBase_abortIO neverStarted
+      = (if neverStarted then ([], "nil") else ([IceTie.Order.c "closeOnce.Do(abort)"], "closeErr")) ∧
+    IceGen.candidateBase_abortIO_once isWriteAborter
+      = [IceTie.Order.c "close(closeCh)", IceTie.Order.c "conn.SetDeadline(now) [closeErr = err]"]
+        ++ (if isWriteAborter then [IceTie.Order.c "abortWrite [closeErr = first err]"] else [])
+        ++ [IceTie.Order.c "conn.Close [closeErr = first err]"] ∧
+    IceGen.candidateBase_close neverStarted hasAgent
+      = (if neverStarted then ([], "nil")
+        else ([IceTie.Order.c "abortIO", IceTie.Order.c "wait closedCh"]
+              ++ (if hasAgent then [IceTie.Order.c "unregisterStartedCandidate"] else []), "abortIO err")) :=
+  ⟨(IceTie.Order.abortIO_tie neverStarted isWriteAborter).1, (IceTie.Order.abortIO_tie neverStarted isWriteAborter).2,
+   IceTie.Order.candidateClose_tie neverStarted hasAgent⟩
+
+example : IceGen.candidateBase_abortIO_once true
+    = [IceModel.Eff.call "close(closeCh)" [], IceModel.Eff.call "conn.SetDeadline(now) [closeErr = err]" [],
+       IceModel.Eff.call "abortWrite [closeErr = first err]" [], IceModel.Eff.call "conn.Close [closeErr = first err]" []] := by decide
 
 end IceProps.C08
